@@ -329,6 +329,18 @@ def exploreAll (maxN maxK : Nat) : IO Unit := do
     IO.println l
   IO.println s!"S configs={cfgs} states={states} transitions={trans} violations={found.size}"
 
+/-- every transition of the LTS (bounded configurations) as a path to force on the implementation -/
+def coverAll (maxN maxK : Nat) : IO Unit := do
+  for n in List.range (maxN + 1) do
+    for conc in List.range (maxK + 1) do
+      for fl in failPatterns n do
+        let pc := mkCfg conc true ((List.range n).map defJob) fl.toArray
+        let ex := bfs pc.cfg 400000
+        for s in ex.states do
+          let p := pathTo ex s []
+          for l in enabled F pc.cfg s do
+            IO.println s!"P cover {cfgToks pc} | {" ".intercalate (forcedPath pc.cfg (p ++ [l]))}"
+
 -- ---------------------------------------------------------------- F lines
 
 def finalsOf (pc : PCfg) : List String :=
@@ -447,6 +459,8 @@ def main (args : List String) : IO UInt32 := do
     return 0
   | ["gen", seed, count, maxN, maxK] =>
     genAll seed.toNat! count.toNat! maxN.toNat! maxK.toNat!; return 0
+  | ["cover", maxN, maxK] =>
+    coverAll maxN.toNat! maxK.toNat!; return 0
   | ["explore", maxN, maxK] =>
     exploreAll maxN.toNat! maxK.toNat!; return 0
   | _ => IO.eprintln "usage: tv_c19 [facts | gen seed count maxN maxK | explore maxN maxK]"; return 2
